@@ -225,7 +225,10 @@ type killResult struct {
 }
 
 // runKillCase runs script as a one-task job next to a bystander job, cancels it and looks at the process table.
-func runKillCase(t fataler, vh, script string, nLeaves int, killTimeout time.Duration, cancelAfter time.Duration, waitAllReady bool, viaShutdown bool) killResult {
+func runKillCase(t fataler, vh, script string, nLeaves int, killTimeout time.Duration, cancelAfter time.Duration, waitAllReady bool, mode string) killResult {
+	// mode: "cancel" (CancelJob), "shutdown" (forced shutdown, two jobs of the pipeline), "failfast" (a second task of
+	// the job fails: the runner itself stops the tree)
+	viaShutdown := mode == "shutdown"
 	dir := workDir(t, "kill")
 	defer os.RemoveAll(dir)
 	m1 := "VFM" + strings.ReplaceAll(uuid.Must(uuid.NewV4()).String(), "-", "")[:16]
@@ -233,8 +236,14 @@ func runKillCase(t fataler, vh, script string, nLeaves int, killTimeout time.Dur
 	r1 := filepath.Join(dir, "ready1")
 	r2 := filepath.Join(dir, "ready2")
 	script = strings.ReplaceAll(strings.ReplaceAll(script, "@MARKER@", m1), "@READY@", r1)
+	victimTasks := map[string]definition.TaskDef{"tree": {Script: []string{script}}}
+	m3 := "VFF" + strings.ReplaceAll(uuid.Must(uuid.NewV4()).String(), "-", "")[:16]
+	r3 := filepath.Join(dir, "ready3")
+	if mode == "failfast" {
+		victimTasks["failer"] = definition.TaskDef{Script: []string{fmt.Sprintf("%s hang %s --ready %s --for 25s", vh, m3, r3)}}
+	}
 	defs := &definition.PipelinesDef{Pipelines: definition.PipelinesMap{
-		"victim":    {Concurrency: 2, SourcePath: "gen", Tasks: map[string]definition.TaskDef{"tree": {Script: []string{script}}}},
+		"victim":    {Concurrency: 2, SourcePath: "gen", Tasks: victimTasks},
 		"bystander": {Concurrency: 1, SourcePath: "gen", Tasks: map[string]definition.TaskDef{"tree": {Script: []string{fmt.Sprintf("sh -c %s", shq(fmt.Sprintf("%s hang %s --ready %s --for 25s & %s hang %s --ready %s --for 25s", vh, m2, r2, vh, m2, r2)))}}}},
 	}}
 	w := newRealWorld(t, defs, killTimeout)
@@ -242,6 +251,7 @@ func runKillCase(t fataler, vh, script string, nLeaves int, killTimeout time.Dur
 		w.close()
 		killMarker(m1)
 		killMarker(m2)
+		killMarker(m3)
 	}()
 	by, err := w.pr.ScheduleAsync("bystander", prunner.ScheduleOpts{})
 	if err != nil {
@@ -274,12 +284,22 @@ func runKillCase(t fataler, vh, script string, nLeaves int, killTimeout time.Dur
 	}
 	res := killResult{readyBefore: readyCount(r1)}
 	tCancel := time.Now()
-	if viaShutdown {
+	switch {
+	case viaShutdown:
 		ctx, cancel := context.WithCancel(context.Background())
 		cancel()
 		go func() { _ = w.pr.Shutdown(ctx) }()
-	} else if err := w.pr.CancelJob(job.ID); err != nil {
-		t.Fatalf("cancel: %v", err)
+	case mode == "failfast":
+		// the other task of the job fails now (its process is killed): fail-fast stops the tree
+		for limit := time.Now().Add(10 * time.Second); readyCount(r3) < 1 && time.Now().Before(limit); {
+			time.Sleep(2 * time.Millisecond)
+		}
+		tCancel = time.Now()
+		killMarker(m3)
+	default:
+		if err := w.pr.CancelJob(job.ID); err != nil {
+			t.Fatalf("cancel: %v", err)
+		}
 	}
 	v, ok := w.waitDone(job.ID, killTimeout+20*time.Second)
 	if ok && job2ID != nil {
@@ -318,11 +338,11 @@ const lingerAllowance = 250 * time.Millisecond
 
 // TestC20: canceling a job leaves no process of its tasks behind.
 func TestC20(t *testing.T) {
-	col := ev.Get("C20", "trees", "process trees from a grammar over 'vhelper hang' (leaf | sh -c with foreground/background children | pipeline | subshell | interpreter-level background command | a command that returns at once and leaves detached children behind, followed by another; leaves may ignore the interrupt and/or redirect their output away from the task's pipe; depth <= 4), run as a task of a real job next to a bystander job; kill timeout 450-700 ms (1.0-1.6 s in a fifth of the cases); cancel (or forced shutdown, then with two jobs of the pipeline running the same tree) at a generated instant, also before the whole tree is up; oracle from /proc after the job is reported finished: no non-zombie process carrying the job's marker is alive (250 ms allowance), report - cancel <= kill timeout + 1.5 s, the bystander's processes are all alive; shapes of the two recorded findings are excluded by construction (counted) and exercised separately; non-trivial = depth >= 2 or a background/pipeline/ignore-int element; distinct by tree shape x cancel phase")
+	col := ev.Get("C20", "trees", "process trees from a grammar over 'vhelper hang' (leaf | sh -c with foreground/background children | pipeline | subshell | interpreter-level background command | a command that returns at once and leaves detached children behind, followed by another; leaves may ignore the interrupt and/or redirect their output away from the task's pipe; depth <= 4), run as a task of a real job next to a bystander job; kill timeout 450-700 ms (1.0-1.6 s in a fifth of the cases); cancel (or forced shutdown, then with two jobs of the pipeline running the same tree; or the failure of a second task of the job, so that fail-fast stops the tree) at a generated instant, also before the whole tree is up; oracle from /proc after the job is reported finished: no non-zombie process carrying the job's marker is alive (250 ms allowance), report - cancel <= kill timeout + 1.5 s, the bystander's processes are all alive; shapes of the two recorded findings are excluded by construction (counted) and exercised separately; non-trivial = depth >= 2 or a background/pipeline/ignore-int element; distinct by tree shape x cancel phase")
 	vh := helper(t)
 	// the two recorded findings, exercised deterministically
 	for _, kf := range knownFindings(vh) {
-		res := runKillCase(t, vh, kf.script, kf.leaves, 600*time.Millisecond, 0, true, false)
+		res := runKillCase(t, vh, kf.script, kf.leaves, 600*time.Millisecond, 0, true, "cancel")
 		if len(res.lingering) > 0 && res.lingerFor > 600*time.Millisecond+1500*time.Millisecond {
 			// the recorded findings are about processes that outlive the report until the kill timeout; one that
 			// is never killed is something else
@@ -355,7 +375,7 @@ func TestC20(t *testing.T) {
 		for _, root := range prelude {
 			var leaves []leafInfo
 			script := root.render(vh, "@MARKER@", "@READY@", false, false, false, false, &leaves)
-			res := runKillCase(t, vh, script, len(leaves), 600*time.Millisecond, 0, true, false)
+			res := runKillCase(t, vh, script, len(leaves), 600*time.Millisecond, 0, true, "cancel")
 			shape := root.shape()
 			if !res.view.Canceled {
 				t.Fatalf("tree %s: the canceled job is reported canceled=%v completed=%v", shape, res.view.Canceled, res.view.Completed)
@@ -414,12 +434,17 @@ func TestC20(t *testing.T) {
 			}
 		}
 		cancelAfter := time.Duration(rapid.IntRange(0, 120).Draw(rt, "cancelAfterMs")) * time.Millisecond
-		viaShutdown := rapid.IntRange(0, 4).Draw(rt, "viaForcedShutdown") == 0
+		mode := rapid.SampledFrom([]string{"cancel", "cancel", "cancel", "shutdown", "failfast"}).Draw(rt, "mode")
+		viaShutdown := mode == "shutdown"
 		canary := time.Now()
-		res := runKillCase(rt, vh, script, len(leaves), killTimeout, cancelAfter, !early, viaShutdown)
+		res := runKillCase(rt, vh, script, len(leaves), killTimeout, cancelAfter, !early, mode)
 		_ = canary
 		shape := root.shape()
-		if !res.view.Canceled {
+		if mode == "failfast" {
+			if !res.view.Completed || res.view.LastError == "" {
+				rt.Fatalf("tree %s: a task of the job failed; the job is reported completed=%v canceled=%v lastError=%q", shape, res.view.Completed, res.view.Canceled, res.view.LastError)
+			}
+		} else if !res.view.Canceled {
 			rt.Fatalf("tree %s: the canceled job is reported canceled=%v completed=%v lastError=%q", shape, res.view.Canceled, res.view.Completed, res.view.LastError)
 		}
 		if len(res.lingering) > 0 && res.lingerFor > lingerAllowance {
@@ -443,7 +468,7 @@ func TestC20(t *testing.T) {
 		if early {
 			phase = fmt.Sprintf("early(%d/%d up)", res.readyBefore, len(leaves))
 		}
-		col.Add(shape+"|"+phase+fmt.Sprint(viaShutdown), nontrivial, map[string]int{"depth>=2": btoi(root.depth() >= 2), "depth>=3": btoi(root.depth() >= 3), "ignore-int-leaf": btoi(anyIgnore), "interrupt-survivor-holding-pipe": btoi(anySurvive), "cancel-before-tree-up": btoi(early && res.readyBefore < len(leaves)), "forced-shutdown": btoi(viaShutdown),
+		col.Add(shape+"|"+phase+fmt.Sprint(viaShutdown), nontrivial, map[string]int{"depth>=2": btoi(root.depth() >= 2), "depth>=3": btoi(root.depth() >= 3), "ignore-int-leaf": btoi(anyIgnore), "interrupt-survivor-holding-pipe": btoi(anySurvive), "cancel-before-tree-up": btoi(early && res.readyBefore < len(leaves)), "forced-shutdown": btoi(viaShutdown), "stopped-by-fail-fast": btoi(mode == "failfast"),
 			"kind:sh": btoi(strings.Contains(shape, "sh(")), "kind:pipe": btoi(strings.Contains(shape, "pipe(")), "kind:bg": btoi(strings.Contains(shape, "bg(")), "kind:sub": btoi(strings.Contains(shape, "sub(")), "kind:seq(leader-gone)": btoi(strings.Contains(shape, "seq("))}, len(leaves),
 			map[string]interface{}{"tree": shape, "script": script, "kill_timeout_ms": killTimeout.Milliseconds(), "cancel": phase, "forced_shutdown": viaShutdown, "report_after_ms": res.reportAfter.Milliseconds()})
 	})
